@@ -52,7 +52,10 @@ Effect(row, v) ==
                             ELSE IF v.phase # "running" THEN <<"phaseconflict", v>>
                             ELSE <<"ok", [v EXCEPT !.ver = @ + 1]>>
     [] row.op = "modify" -> IF v.ver = 0 THEN <<"ok", [ver |-> 1, owner |-> ow, phase |-> "running", fins |-> {}]>>
-                            ELSE IF v.phase # "running" THEN <<"phaseconflict", v>>   \* Modify expects the running phase by default
+                            (* Modify expects the running phase by default; options: any phase (phaseAny), tearing down (phaseTd); *)
+                            (* the owner is enforced whatever the phase option                                                      *)
+                            ELSE IF row.opt # "phaseAny" /\ v.phase # (IF row.opt = "phaseTd" THEN "tearingDown" ELSE "running")
+                                 THEN <<"phaseconflict", v>>
                             ELSE IF v.owner # ow THEN <<"ownerconflict", v>>
                             ELSE <<"ok", [v EXCEPT !.ver = @ + 1]>>
     [] row.op = "teardown" -> IF v.ver = 0 THEN <<"notfound", v>>
